@@ -368,6 +368,13 @@ impl AVP {
     ) -> Vec<DecodeResult<Self>> {
         let mut result = Vec::new();
         while let Some(header) = Header::try_read(reader) {
+            let header = match header {
+                Ok(header) => header,
+                Err(e) => {
+                    result.push(Err(e));
+                    break;
+                }
+            };
             if header.payload_length as usize > reader.len() {
                 result.push(Err(DecodeError::InvalidAVPLength(header.payload_length)));
                 break;
